@@ -12,9 +12,13 @@ U_divmod == [name |-> "divmod", nin |-> 2, nout |-> 2]
 U_matmul == [name |-> "matmul", nin |-> 2, nout |-> 1]
 AllUfuncs == {U_neg, U_add, U_modf, U_divmod, U_matmul}
 AllMethods == {"call", "reduce", "accumulate", "reduceat", "outer", "at"}
-AllDKinds == {"b1", "int", "f2", "f4", "f8", "f16", "c8", "c16", "c32", "obj", "other"}
+AllDKinds == {"b1", "uint", "int", "f2", "f4", "f8", "f16", "c8", "c16", "c32", "obj", "other"}
 Q_DKinds == {"b1", "f4", "f8", "c16", "f16"}
 AllAsDtypes == {"none", "f4", "f8", "c8", "c16"}
+\* dtypes computed for slots with an out object
+MC_OutRK == {"int", "-", "!"}
+G_OutRK == {"-", "!"}
+C_OutRK == {"-"}
 Q_AsDtypes == {"none", "f4", "c16"}
 
 \* arrangement instances: every canonical heap (all objects used, first-use order)
